@@ -6,6 +6,11 @@ Proof obligations: `lean/NaijaVerif/Props/C03.lean` (theorems about the analysis
 Tie: family `plan` — the real analyses vs the model on generated and corpus programs: the
 implementation's plan must be contained in the model's, its effect classes at least the model's, and
 the analysis warnings equal (`planlib.compare`).
+Tie of the evaluator the theorems are about: `arun` requests — `AEval.run` instantiated with `evalPrims`
+(`Model/AnalysisPrims.lean`; the instance of the closed theorem `c03_concrete`) on the real annotated AST,
+facts and plan, without and with the plan, against the real runtime without and with the plan: printed values
+and ending must be equal (`planlib.compare_arun`), on every program of the plan streams plus programs of the
+`run` family's generators (they exercise the primitive operations much more widely).
 Oracle (needs no model): the real runtime with the real plan vs without it, same AST and facts."""
 import os
 
@@ -24,7 +29,10 @@ def run(ck: Check):
                "declaration that would otherwise execute; the exact executed-statement bitmap needs the proposed "
                "hook, see proposed-fixes/hook-exec-bitmap.diff); distinct by source text")
     ck.assumptions.append("C03: the evaluator the theorems speak about is the fragment in Model/AnalysisEval.lean "
-                          "(control flow, scopes, hoisting, calls, plan skipping; primitive operations abstract)")
+                          "(control flow, scopes, hoisting, calls, plan skipping; primitive operations abstract), "
+                          "instantiated in c03_concrete with the primitive steps of Model/Eval.lean (evalPrims, proved "
+                          "Lawful); that instance is tied to the real runtime by the `arun` streams (plain and pruned "
+                          "runs compared with the real runtime's), not by a proof about Rust")
     ck.build_harness()
     ck.gen_tables()
     ck.lean_obligations(MODULES)
@@ -38,6 +46,7 @@ def run(ck: Check):
     if sreqs:
         res = planlib.corr_plan(ck, sreqs, label="plan-corpus")
         planlib.count_distribution(ck, sreqs, res)
+        arun_stream(ck, sreqs, "arun-corpus")
 
     n = 1500 if ck.tier == "quick" else 30000
     total_equal, total = 0, 0
@@ -48,10 +57,24 @@ def run(ck: Check):
         ck.seed -= shift
         res = planlib.corr_plan(ck, reqs, label=f"plan-gen-size{size}")
         planlib.count_distribution(ck, reqs, res)
+        arun_stream(ck, reqs, f"arun-gen-size{size}")
         total_equal += res["plans_equal"]
         total += res["requests"]
         cov_reqs += reqs[:300] if ck.tier == "quick" else reqs[:3000]
     ck.extra_cov["impl_plan_equals_model_plan"] = f"{total_equal}/{total}"
+    # the run family's programs (typed generator; thorough: also the exhaustive sink x type x route product):
+    # methods, interpolation, index paths, process commands — the primitive steps of evalPrims
+    kinds = [("main", 800)] if ck.tier == "quick" else [("main", 10000), ("product", 20000)]
+    for kind, cnt in kinds:
+        rreqs = ck.gen("run", ["--n", cnt, "--kind", kind])
+        arun_stream(ck, [r for r in rreqs if r.startswith("run ")], f"arun-run-{kind}")
+    c = ck.counters
+    ck.extra_cov["arun_fragment_evaluator_vs_real_runtime"] = (
+        f"{c.get('arun_programs_compared', 0)} programs compared (plain and pruned run each), "
+        f"{c.get('arun_with_nonempty_plan', 0)} with a non-empty plan, "
+        f"{c.get('arun_ending_in_runtime_error', 0)} ending in a runtime error, "
+        f"{c.get('arun_skipped_read_line', 0)} skipped (read_line), "
+        f"{c.get('arun_not_compared_resource_exhaustion', 0)} not compared (fuel / stack / hang)")
     # corpus + a sample of both generated streams
     coverage_statistic(ck, cov_reqs)
     if ck.tier == "thorough":
@@ -59,6 +82,12 @@ def run(ck: Check):
     if ck.is_broken():
         search(ck)
     return ck.finish()
+
+
+def arun_stream(ck, reqs, label):
+    """The programs of `reqs` (request lines of family `plan` or `run`: second word = hex source) as `arun` requests."""
+    areqs = planlib.arun_requests(ck, [r.split()[1] for r in reqs if len(r.split()) > 1])
+    return planlib.corr_arun(ck, areqs, label=label)
 
 
 def coverage_statistic(ck, reqs):
@@ -107,7 +136,20 @@ def oracle_fails_on(ck, source):
     if not reqs:
         return False
     p = sh([ck.nvh(), "plan", "run"], inp=(reqs[0] + "\n").encode(), timeout=120)
-    return b"ORACLE-FAIL" in p.stderr
+    if b"ORACLE-FAIL" in p.stderr:
+        return True
+    # the same comparison as the `arun` stream makes on the implementation's two runs (process execution denied)
+    areqs = planlib.arun_requests(ck, [reqs[0].split()[1]])
+    if not areqs:
+        return False
+    p = sh([ck.nvh(), "plan", "run", "--no-oracle"], inp=(areqs[0] + "\n").encode(), timeout=120)
+    a = planlib.parse(p.stdout.decode(errors="replace"))
+    if "plain.end" not in a:
+        return False
+    res = [a["plain.end"], a["pruned.end"]]
+    if any(planlib._resource(e) for e in res) or res == ["panic", "panic"]:
+        return False
+    return (a["plain.end"], a["plain.out"]) != (a["pruned.end"], a["pruned.out"])
 
 
 def search(ck):
@@ -153,6 +195,13 @@ def replay(ck, data):
         # the facts in a stored request may be stale: rebuild from the source with the current front end
         fresh, _ = planlib.requests_for(ck, [data["source"]])
         reqs = fresh or reqs
+    # every program also as an `arun` request (fragment evaluator vs real runtime), rebuilt by the current front end
+    hexes = []
+    for r in reqs:
+        h = r.split()[1] if len(r.split()) > 1 else None
+        if h and h not in hexes:
+            hexes.append(h)
+    reqs = [r for r in reqs if not r.startswith("arun ")] + planlib.arun_requests(ck, hexes)
     inp = ("\n".join(reqs) + "\n").encode()
     impl = sh([ck.nvh(), "plan", "run"], inp=inp)
     mod = sh([DRIVER, "plan"], inp=inp)
@@ -164,9 +213,16 @@ def replay(ck, data):
         b = ml[i] if i < len(ml) else "?"
         print("implementation:", a)
         print("model:         ", b)
-        why = planlib.compare(a, b)
+        why = planlib.compare_arun(a, b) if r.startswith("arun ") else planlib.compare(a, b)
         print("comparison:    ", why or "ok")
         bad += bool(why)
+        if r.startswith("arun "):
+            pa = planlib.parse(a)
+            if "plain.end" in pa and not any(planlib._resource(pa[k]) for k in ("plain.end", "pruned.end")) and \
+                    (pa["plain.end"], pa["plain.out"]) != (pa["pruned.end"], pa["pruned.out"]) and \
+                    [pa["plain.end"], pa["pruned.end"]] != ["panic", "panic"]:
+                print("the plan changes the behaviour of the real runtime on this program")
+                bad += 1
     err = impl.stderr.decode()
     print(err)
     return 1 if "ORACLE-FAIL" in err or bad else 0
